@@ -2,6 +2,7 @@ import GlueVerif.Lemmas.Geometry
 import GlueVerif.Lemmas.GeometryPoly
 import GlueVerif.Lemmas.GeometryEllipse
 import GlueVerif.Lemmas.GeometryOps
+import GlueVerif.Lemmas.GeometryScale
 import GlueVerif.Props.C20
 /-!
 # C08 — region containment is geometrically exact and equivariant under move / rotate / copy
@@ -149,6 +150,43 @@ centroid otherwise, closed polygons without the repeated vertex) moves with the 
 theorem polygon_centroid_translate (d : Pt) (vs : List Pt) (h : vs ≠ []) :
     polyCenter (vs.map (shiftPt d)) = shiftPt d (polyCenter vs) :=
   polyCenter_shift d vs h
+
+/-! ## no absolute scale, no preferred origin -/
+
+/-- **`contains_scale_equivariant`**: multiplying every length of the region (positions, sizes, radii,
+vertices; the angle stays) and the test point by the same `k > 0` changes neither the coded test — every
+class, every `θ`-branch, bounding-box prefilters included — nor the geometric definition.  Nothing in
+`contains` may depend on the unit of length: this is the exact-arithmetic statement that the magnitude
+ladder (sizes `2⁻⁴⁰ … 2⁴⁰`) of the differential check tests on the real code. -/
+theorem contains_scale_equivariant (roi : Roi) (k : Rat) (hk : 0 < k) (p : Pt) :
+    Impl.contains (scaleRoi k roi) (scalePt k p) = Impl.contains roi p ∧
+    Spec.contains (scaleRoi k roi) (scalePt k p) = Spec.contains roi p :=
+  contains_scale roi k hk p
+
+example : Impl.contains (scaleRoi (1 / 1024) (.rect ⟨0, 4, 0, 2, 3/5, 4/5⟩)) (scalePt (1 / 1024) (2, 2)) = true ∧
+    Impl.contains (scaleRoi 1048576 (.poly { vs := [(0, 0), (6, 0), (6, 6), (3, 2), (0, 6)] })) (scalePt 1048576 (3, 4)) = false := by
+  decide +kernel
+
+/-- **`contains_translate_equivariant`**: moving the region by `d` (through the model's own `move_to`,
+to `center + d`) and the test point by `d` does not change the answer — every class, every branch, no
+band (a consequence of `move_equivariant`; a range moves along, and looks at, its own axis only).  The
+offset ladder (centres `0 … ±2⁵⁰`) tests this on the real code. -/
+theorem contains_translate_equivariant (roi : Roi) (d p : Pt) :
+    Impl.contains (roi.moveTo (roi.center.1 + d.1, roi.center.2 + d.2)) (p.1 + d.1, p.2 + d.2) =
+      Impl.contains roi p :=
+  contains_translate roi d p
+
+/-- Witness for the findings F18 / F23 / F23b (why `center()` of a polygon whose signed area is exactly
+zero cannot be made robust by a threshold on the current vertices): the asymmetric bow-tie
+`(0,0),(4,2),(4,0),(2,2)` has signed area `0` and centre = vertex mean `(5/2, 1)`; nudging one vertex by
+`10⁻⁹` — the size of the rounding noise a `rotate_to` leaves on vertices at Julian-date offsets — makes
+the signed area `2·10⁻⁹` and `center()` = centroid a point more than `10⁹` away. -/
+theorem zero_area_centre_unstable :
+    polyAreaSigned [(0, 0), (4, 2), (4, 0), (2, 2)] = 0 ∧
+    polyCenter [(0, 0), (4, 2), (4, 0), (2, 2)] = (5 / 2, 1) ∧
+    polyAreaSigned [(0, 0), (4, 2), (4, 0), (2, 2 + 1 / 1000000000)] = 1 / 500000000 ∧
+    (polyCenter [(0, 0), (4, 2), (4, 0), (2, 2 + 1 / 1000000000)]).1 < -1000000000 := by
+  decide +kernel
 
 /-! ## rotate_to -/
 
